@@ -25,15 +25,33 @@ def sh(cmd, timeout=1800, cwd=None, env=None, input=None):
 
 
 def strip_coq_comments(text):
-    out, depth, i = [], 0, 0
+    """Comments (nested) and the contents of string literals removed: a keyword inside a string
+    (e.g. the Python class name "Parameter") is not a declaration."""
+    out, depth, i, instr = [], 0, 0, False
     while i < len(text):
-        if text.startswith("(*", i):
+        ch = text[i]
+        if instr:
+            if ch == '"':
+                if text.startswith('""', i):      # escaped quote inside a Coq string
+                    i += 2; continue
+                instr = False
+                if depth == 0:
+                    out.append('"')
+            elif ch == "\n" and depth == 0:
+                out.append("\n")                 # keep line numbers
+            i += 1
+        elif text.startswith("(*", i):
             depth += 1; i += 2
         elif text.startswith("*)", i) and depth > 0:
             depth -= 1; i += 2
+        elif ch == '"':
+            instr = True
+            if depth == 0:
+                out.append('"')
+            i += 1
         else:
             if depth == 0:
-                out.append(text[i])
+                out.append(ch)
             i += 1
     return "".join(out)
 
